@@ -203,6 +203,7 @@ class ItemTransform(Module):
                 )
                 data = type(data)(*args)
             else:
+                data = shallowcopy(data)
                 setattr(data, key, item)
         elif is_namedtuple(data):
             if self.copy:
